@@ -6,6 +6,7 @@ import FlVerif.Lemmas.Reject
 import FlVerif.Lemmas.CodeRule
 import FlVerif.Lemmas.CodeLoad
 import FlVerif.Lemmas.CodeSession
+import FlVerif.Lemmas.CodeFllImportReject
 
 /-! # C16 — Malformed rule text is rejected cleanly, never accepted
 
@@ -388,5 +389,45 @@ example : ruleCreate T eng "if a is lo then a is lo" = .error (.syntax, .cons) :
 example : ruleCreate T eng "if (a is lo then o is t" = .error (.syntax, .ante) := by decide +kernel
 example : ruleCreate T eng "if a is lo and then o is t" = .error (.syntax, .ante) := by decide +kernel
 example : ruleCreate T eng "if a is lo then o is t extra" = .error (.syntax, .cons) := by decide +kernel
+
+/-! ## malformed lines of an FLL document (the translated key dispatch loops of `FllImporter`)
+
+`c : Op.FllIO.Comp` is one of the three component methods `input_variable`, `output_variable`, `rule_block`
+(`Gen.Code.FllImporter_*`, regenerated from the source); `c.Raises fll e` says that the *translated* method raises `e`
+on the text `fll`.  The document is arbitrary: the lines `pre` before the malformed line only have to be accepted
+(`c.Accepts pre`: the model's reading of them is not an error), the lines `post` after it are arbitrary. -/
+
+open Op.FllIO in
+/-- a line whose key is not a key of the component is a `SyntaxError` -/
+theorem fll_unknown_key_rejected (c : Comp) (fll : String) (pre post : List String) (x : String) (l : Line)
+    (hs : Py.Fll.splitLines fll = pre ++ x :: post) (ha : c.Accepts pre) (hx : lexLine x.toList = .ok (some l))
+    (hk : l.key ∉ c.keys) : c.Raises fll .syntax :=
+  raises_of_lineErr c fll pre post x l .syntax hs ha hx (lineErr_unknown c l hk)
+
+open Op.FllIO in
+/-- a line of a boolean key (`enabled`, `lock-range`, `lock-previous`) whose value is neither `true` nor `false` is a
+    `SyntaxError` -/
+theorem fll_bad_boolean_rejected (c : Comp) (fll : String) (pre post : List String) (x : String) (l : Line)
+    (hs : Py.Fll.splitLines fll = pre ++ x :: post) (ha : c.Accepts pre) (hx : lexLine x.toList = .ok (some l))
+    (hk : l.key ∈ c.boolKeys) (h1 : l.toks ≠ [.w "true"]) (h2 : l.toks ≠ [.w "false"]) : c.Raises fll .syntax :=
+  raises_of_lineErr c fll pre post x l .syntax hs ha hx (lineErr_boolean c l hk h1 h2)
+
+open Op.FllIO in
+/-- a `range` line: a wrong number of values is a `SyntaxError`, two values of which one is not the text of a number
+    are a `ValueError` -/
+theorem fll_bad_range_rejected (c : Comp) (fll : String) (pre post : List String) (x : String) (l : Line)
+    (hs : Py.Fll.splitLines fll = pre ++ x :: post) (ha : c.Accepts pre) (hx : lexLine x.toList = .ok (some l))
+    (hk : l.key ∈ c.rangeKeys) :
+    (l.toks.length ≠ 2 → c.Raises fll .syntax) ∧
+    (∀ a b, l.toks = [a, b] → (¬ ∃ p q, a = .n p ∧ b = .n q) → c.Raises fll .value) :=
+  ⟨fun h => raises_of_lineErr c fll pre post x l .syntax hs ha hx (lineErr_range c l .syntax hk (rangeOf_syntax _ h)),
+   fun a b hab h => raises_of_lineErr c fll pre post x l .value hs ha hx
+     (lineErr_range c l .value hk (by rw [hab]; exact rangeOf_value a b h))⟩
+
+open Op.FllIO in
+/-- the hypotheses are satisfiable: `enabled: maybe` after the header of an input variable -/
+example : Comp.input.Raises "InputVariable: x\n  enabled: maybe\n  range: 0 1" .syntax :=
+  fll_bad_boolean_rejected .input _ ["InputVariable: x"] ["  range: 0 1"] "  enabled: maybe" ⟨.enabled, [.w "maybe"]⟩
+    (by decide +kernel) ⟨{ name := "x" }, by decide +kernel⟩ (by decide +kernel) (by decide) (by decide) (by decide)
 
 end C16
